@@ -3,7 +3,10 @@
  *                                         no seckey:    session_secrand
  *   k_i   = int(TaggedHash("MuSig/nonce", rand || len(pk)=33 (1 byte) || pk33 || len(aggpk) (1 byte: 32 or 0) || [aggpk32]
  *               || msg_present (1 byte) || [len(msg)=32 (8 bytes, big endian) || msg32] || len(extra) (4 bytes: 32 or 0) || [extra32] || i)) mod n,  i = 0, 1
- * sha256_write/_finalize are replaced by the stream contracts (hash_log.h + second finalize watch of assumed_C02.h).
+ * sha256_write/_finalize are replaced by the STREAM contracts (hash_log.h + second finalize watch of assumed_C02.h).  Kept at stream level
+ * for cost (three hashes, every optional-input pattern): this pins "tagged hashes through the precomputed midstates and
+ * sha256_write/_finalize"; a behaviour-preserving re-implementation of the tagged hashes (e.g. initialize_tagged instead of a midstate)
+ * would need this unit to be re-stated at block level (harness/hash_blocks.h) - audit #31.
  * Both final hashes continue ONE absorbed prefix: epoch e0 contains the whole stream and the byte 0, epoch e0+1 contains
  * a single write, the byte 1, at the same stream position (the hash object is a copy of the one that absorbed the prefix). */
 #define C02_HASHLOG2
